@@ -305,6 +305,15 @@ func (ex *Exec) frameObligations(fr *Frame, st *State, c *FuncContract, env *Env
 		if ws.heaps[h] {
 			continue
 		}
+		skip := false
+		for _, pre := range ws.prefixes {
+			if strings.HasPrefix(h, pre) {
+				skip = true
+			}
+		}
+		if skip {
+			continue
+		}
 		cur := st.heap[h]
 		old := vc.heapGetByName(vc.entry, h)
 		if cur.S == old.S {
